@@ -37,7 +37,7 @@ def op_alter_bound(img, rng, pf, limit):
     return f"alter_bound level={lv} box={b} dim={d} {'lo' if k == 0 else 'hi'} moved by a multiple of dx"
 
 
-def check_image(out, model, img, pf, limit, nfields, descs, seed, tag, coords=False):
+def check_image(out, model, img, pf, limit, nfields, descs, seed, tag, coords=False, use_model=True):
     """runs implementation (both modes) and model on one image; applies the C04 oracle"""
     path = core.scratch_dir(f"{tag}_{seed}")
     diskimg.write_image(img, path)
@@ -45,7 +45,8 @@ def check_image(out, model, img, pf, limit, nfields, descs, seed, tag, coords=Fa
     v_nofail, d1 = tc.impl_taste(path, limit, opts, True)
     v_fail, d2 = tc.impl_taste(path, limit, opts, False)
     out['evals'] += 1
-    mgood = tc.model_taste(model, diskimg.image_sx(img), limit, opts)
+    # (offsets beyond 2**32 are not handed to the list-based model: it would walk that many bytes)
+    mgood = tc.model_taste(model, diskimg.image_sx(img), limit, opts) if use_model else None
     ok, why = diskimg.consistent(img, nfields, limit)
     if coords:
         ok, why = False, 'physical box bounds contradict the index ranges'
@@ -66,7 +67,7 @@ def check_image(out, model, img, pf, limit, nfields, descs, seed, tag, coords=Fa
             bad = ('modes-disagree', f'nofail={v_nofail} fail={v_fail} on the same directory')
     if bad:
         out['violations'].append(dict(desc, kind=bad[0], what=bad[1]))
-    elif not coords and (v_nofail == 'good') != mgood:
+    elif not coords and use_model and (v_nofail == 'good') != mgood:
         out['disagreements'].append(dict(desc, kind='model-vs-impl',
                                          what='implementation verdict differs from Taste.taste_good on a damaged image',
                                          correspondence='Taste.Taste.taste_good vs Taster (default options)'))
@@ -110,6 +111,18 @@ def run_case(seed, c20=False):
             accepted.append((img, limit, descs, path))
             if c20:
                 c20_read_back(out, img, pf, limit, descs, path, seed, count)
+    # offsets moved by multiples of 2**32 (derived generator: the corruption stream above keeps its choices)
+    r2 = random.Random(seed * 641 + 17)
+    for i in range(4):
+        limit = r2.randint(0, finest)
+        img, descs = diskimg.corrupt(base, r2, limit, [diskimg.op_wrap_offset], 1)
+        if not descs:
+            continue
+        count('op=wrap_offset')
+        path, verdict, ok = check_image(out, model, img, pf, limit, nfields, descs, seed, 'c20' if c20 else 'c04', use_model=False)
+        out['keys'].append(core.khash(seed, 'w', i))
+        if verdict == 'good' and c20:
+            c20_read_back(out, img, pf, limit, descs, path, seed, count)
     if not c20:
         # physical bounds contradicting the index ranges, with box-coordinate validation
         for i in range(4):
@@ -207,6 +220,10 @@ def c20_read_back(out, img, pf, limit, descs, path, seed, count):
         out['keys'].append(core.khash(seed, 'acc', tuple(descs)))
 
 
+def two_dirs_taste(seed):
+    return core.two_dirs_case(PID, 'taste', seed)
+
+
 def run(tier, seed):
     rep = core.Report(PID, tier, seed)
     pg = core.proof_gate(PID, thorough=(tier == 'thorough'))
@@ -220,6 +237,8 @@ def run(tier, seed):
     for r in core.run_cases(run_case, core.with_corpus(PID, cases)):
         rep.merge(r)
     for r in core.run_cases(many_boxes_case, [seed * 100000 + 4900 + i for i in range(3 if tier == 'quick' else 30)]):
+        rep.merge(r)
+    for r in core.run_cases(two_dirs_taste, [seed * 100000 + 99000 + i for i in range(1 if tier == 'quick' else 5)]):
         rep.merge(r)
     rep.obligation('correspondence: Taste.taste_good = bool(Taster) on every corrupted image (default options)',
                    not any(v[0].get('kind') == 'model-vs-impl' for v in rep.violations))
